@@ -104,15 +104,24 @@ def _hop_walk(prog, rep, f, m, kloop, inloop_hops):
     body = f.node.body
     pmap = ParentMap(f.node)
     walks = []
+    cands = []
     for lp_ in [s for s in body if isinstance(s, (ast.For, ast.While)) and s is not kloop and s.lineno > kloop.lineno]:
-        inc = [x for x in lp_.body if m.match(x, 'hops[$M] += 1')]
-        if inc:
+        cnt = [x for x in lp_.body if isinstance(x, (ast.Assign, ast.AugAssign)) and
+               norm(x.targets[0] if isinstance(x, ast.Assign) else x.target).startswith('hops[')]
+        if cnt:
+            cands.append((lp_, cnt))
+    for lp_, cnt in cands[:1]:
+        inc = [x for x in cnt if m.match(x, 'hops[$M] += 1')]
+        rep.ob('F.walk-adds-one-hop-per-step', f, cnt[0], len(inc) == 1 and len(cnt) == 1,
+               'every round of the walk must add exactly one hop to the pairs that are still walking (`hops[walking] += 1`): a pair that needs h '
+               'rounds then has h hops whatever the loop counter is', line=lp_.lineno)
+        if len(inc) == 1 and len(cnt) == 1:
             walks.append((lp_, inc[0]))
     g = prog.func(DIST, 'retrieve_shortest_path')
     arrival = any(isinstance(c, ast.Compare) and {norm(c.left), norm(c.comparators[0])} == {g.params[0], g.params[1]}
                   for l_ in ast.walk(g.node) if isinstance(l_, (ast.For, ast.While)) for c in ast.walk(l_))
-    rep.ob('F.hop-table-agrees-with-next-hop-table-by-construction', f, walks[0][1] if walks else (inloop_hops[0] if inloop_hops else 'hops'),
-           bool(walks) or arrival,
+    rep.ob('F.hop-table-agrees-with-next-hop-table-by-construction', f, cands[0][1][0] if cands else (inloop_hops[0] if inloop_hops else 'hops'),
+           bool(cands) or arrival,
            'hops and Pmat are maintained as independent tables; they agree only while the strict comparison of *rounded* sums respects the triangle '
            'inequality exactly. With non-representable lengths (transform "inv") a longer route can compare as strictly shorter for (i,j) but not for '
            'its tail, so hops[i,j] exceeds the number of steps the next-hop chain needs, and retrieve_shortest_path (which walks hops[s,t] steps '
@@ -149,8 +158,12 @@ def _hop_walk(prog, rep, f, m, kloop, inloop_hops):
            'target[i, j] = j and cursor[i, j] = i (a private copy)', line=lp_.lineno)
     rep.ob('F.walk-counts-from-zero-over-reachable-distinct-pairs', f, '; '.join(norm(pre[x]) for x in ('hops', M) if x in pre), okH and bool(okM),
            'hop counts start at 0; exactly the pairs with a finite length and i != j walk (unreachable pairs and the diagonal keep 0 hops)', line=lp_.lineno)
-    bound = (isinstance(lp_, ast.For) and m.match(lp_.iter, 'range(n)')) or (isinstance(lp_, ast.While))
-    rep.ob('F.walk-is-bounded', f, lp_.iter if isinstance(lp_, ast.For) else lp_.test, bool(bound), 'a simple path has at most n - 1 edges: n rounds suffice', line=lp_.lineno)
+    bound = (isinstance(lp_, ast.For) and (m.match(lp_.iter, 'range(n)') or m.match(lp_.iter, 'range(n - 1)') or m.match(lp_.iter, 'range(1, n)')
+                                            or m.match(lp_.iter, 'range(len(SPL))'))) or \
+        (isinstance(lp_, ast.While) and (m.match(lp_.test, 'np.any(%s)' % M) is not None))
+    rep.ob('F.walk-has-enough-rounds', f, lp_.iter if isinstance(lp_, ast.For) else lp_.test, bool(bound),
+           'a simple path has up to n - 1 edges: the walk needs at least n - 1 rounds (or must run until no pair is walking); with fewer rounds the '
+           'longest paths are reported with too few hops and retrieve_shortest_path stops before the target', line=lp_.lineno)
     # the walk reads the finished table
     fin = [s for s in stmts if norm(s.targets[0]).startswith('Pmat[') and s.lineno > lp_.lineno]
     rep.ob('F.walk-reads-the-finished-next-hop-table', f, fin[0] if fin else 'no write to Pmat after the walk', not fin,
@@ -275,6 +288,9 @@ def variants(root):
     B('walk never stops on arrival', fl, '        walking = np.logical_and(walking, node != target)\n', '', 'F.walk-stops')
     B('walk counts the arrival step twice', fl, '        hops[walking] += 1\n        node[walking] = Pmat[node[walking], target[walking]]\n        walking = np.logical_and(walking, node != target)\n',
       '        node[walking] = Pmat[node[walking], target[walking]]\n        walking = np.logical_and(walking, node != target)\n        hops[walking] += 1\n', 'F.walk-stops')
+    B('walk one round short', fl, 'for step in range(n):', 'for step in range(1, n - 1):', 'F.walk-has-enough')
+    B('hops taken from a shifted loop counter', fl, '        hops[walking] += 1\n', '        hops[walking] = step\n', 'F.walk-adds-one-hop')
+    N('walk with n - 1 rounds', fl, 'for step in range(n):', 'for step in range(n - 1):')
     B('unreachable pairs walk too', fl, 'walking = np.logical_and(np.isfinite(SPL), node != target)', 'walking = node != target', 'F.walk-counts-from-zero')
     B('cursor is a view of the target table', fl, 'node = target.T.copy()', 'node = target.T', 'F.walk-starts')
     B('cursor starts at the column node', fl, 'node = target.T.copy()', 'node = target.copy()', 'F.walk-starts')
